@@ -263,6 +263,10 @@ class Gen:
             if fl in ("AV", "TAV") and r.chance(0.7):
                 # (no threshold strategies: a void accumulator sees no values)
                 return "%s G%d %d %s" % (op, g, r.below(10), r.choice([x for x in STRATS if not x.startswith("stop")]))
+            if r.chance(0.04):
+                # malformed stream: any strategy on any flavour (ignored without accumulator; a threshold on a void
+                # accumulator is the plain walk) — the language is total
+                return "%s G%d %d %s" % (op, g, r.below(10), r.choice(STRATS))
             return "%s G%d %d" % (op, g, r.below(10))
         if op == "throw":
             return "throw"
